@@ -2,7 +2,7 @@
 # seedcheck.sh <seed-dir-name> <check> [tier]: run a check against a stored seeded change applied to the
 # scratch worktree /tmp/wt/mine (never /repo).
 S=$1; C=$2; T=${3:-quick}
-WT=/tmp/wt/mine
+WT=${SEED_WT:-/tmp/wt/mine}
 [ -d $WT ] || git -C /repo worktree add --detach $WT HEAD >/dev/null 2>&1
 git -C $WT checkout -q --detach $(git -C /repo rev-parse HEAD) 2>/dev/null
 git -C $WT checkout -q -- . ; git -C $WT clean -fdq
